@@ -15,7 +15,7 @@
 From AB Require Import World.Step World.Exec Base.Base64Proofs Proofs.EvLogic Proofs.Neutral Proofs.HandlerEvents
   Proofs.ServeEvents Proofs.StepUid Proofs.MonadInv Proofs.Guards Proofs.Guards2 Proofs.Guards3 Proofs.StoreLogic
   Proofs.StepGuard Proofs.StepAll Proofs.TwoFactorProofs Proofs.OneTimeProofs Proofs.TokenProofs Proofs.FlowProofs
-  Proofs.OnceProofs Proofs.StoreShape Proofs.HistoryProofs.
+  Proofs.OnceProofs Proofs.StoreShape Proofs.Wrapped Proofs.HistoryProofs.
 Open Scope Z_scope.
 
 (* ================================================================================================ *)
@@ -1028,3 +1028,176 @@ Proof using laws.
   - destruct cookie; exact H.
 Qed.
 End A4.
+
+(* ---- the cookie's vocabulary --------------------------------------------------------------------- *)
+(* the token of the cookie is not among U's stored tokens (vocabulary of c07_unknown_cookie_no_login) *)
+Definition rm_absent (C : crypto) (cookie U : bytes) (st : storage) : Prop :=
+  forall raw, b64url_dec cookie = Some raw -> bmem (b64std_enc (sha C raw)) (rmlookup U (s_rm st)) = false.
+(* ... occurs at most n times among them *)
+Definition rm_at_most (C : crypto) (cookie U : bytes) (st : storage) (n : nat) : Prop :=
+  forall raw, b64url_dec cookie = Some raw ->
+    (count_occ bytes_dec (rmlookup U (s_rm st)) (b64std_enc (sha C raw)) <= n)%nat.
+
+Lemma rm_absent_iff C cookie U st : rm_absent C cookie U st <-> rm_at_most C cookie U st 0.
+Proof.
+  split; intros H raw Dc; specialize (H raw Dc).
+  - apply bmem_false_iff in H. apply (count_occ_not_In bytes_dec) in H. lia.
+  - apply bmem_false_iff. apply (count_occ_not_In bytes_dec). lia.
+Qed.
+
+(* the visible exceptions: a step that can issue the very same token again *)
+Definition rm_exception (C : crypto) (cookie U : bytes) (ao : action * oracle) : Prop :=
+  exists raw, b64url_dec cookie = Some raw /\ rm_reissue C raw U (fst ao) (snd ao).
+
+Lemma rm_exception_reading C cookie U a O :
+  rm_exception C cookie U (a, O) <->
+  exists raw, b64url_dec cookie = Some raw /\
+    match a with
+    | ASeed u rm => u_pid u = U /\ In (b64std_enc (sha C raw)) rm
+    | APlant _ _ _ | ASetJar _ _ _ => False
+    | _ => In (skipn (length raw - 32) raw) (o_fresh O) \/
+           skipn (length raw - 32) raw = repeat x00 (length (skipn (length raw - 32) raw))
+    end.
+Proof. unfold rm_exception, rm_reissue, hands_out. cbn [fst snd]. destruct a; reflexivity. Qed.
+
+Section AH.
+Variable C : crypto.
+Hypothesis laws : crypto_laws C.
+Variable cfg : config.
+
+(* A2: a cookie whose token is absent logs nobody in, whatever the oracle does *)
+Lemma rm_absent_refused w req O cookie raw U :
+  is_app (q_route req) = true ->
+  alookup k_rm (jar_get (q_browser req) (w_cook w)) = Some cookie ->
+  b64url_dec cookie = Some raw -> rm_parse_pid raw = Some U ->
+  rm_absent C cookie U (w_st w) ->
+  forall b V, alookup k_uid (jar_get b (w_sess (fst (step C cfg w (AReq req) O)))) = Some V ->
+              alookup k_uid (jar_get b (w_sess w)) = Some V.
+Proof.
+  intros App Ck Dc Pp Ab b V H1.
+  destruct (alookup k_uid (jar_get b (w_sess w))) as [v0|] eqn:L0.
+  - destruct (bytes_dec v0 V) as [->|Ne]; [reflexivity|]. exfalso.
+    assert (H0 : alookup k_uid (jar_get b (w_sess w)) <> Some V) by (rewrite L0; congruence).
+    destruct (step_issued C cfg w (AReq req) O V b H1 H0) as [(rq & Ha & Hb & Cs)|[Ha|(j & Ha & _)]];
+      try discriminate Ha. inversion Ha; subst rq.
+    destruct Cs as [(R & _)|[(R & _)|[(R & _)|[(R & _)|[(pv & R & _)|[(R & _)|[(R & _)|(f1 & f2 & f3 & f4 & f5 & f6 & R & G)]]]]]]];
+      try (rewrite R in App; discriminate App).
+    destruct G as (ck & rw & G1 & G2 & G3 & G4). cbn [e_cook e_C] in *.
+    rewrite Ck in G1. inversion G1; subst ck. rewrite Dc in G2. inversion G2; subst rw.
+    rewrite Pp in G3. inversion G3; subst V. rewrite (Ab raw Dc) in G4. discriminate G4.
+  - exfalso.
+    assert (H0 : alookup k_uid (jar_get b (w_sess w)) <> Some V) by (rewrite L0; discriminate).
+    destruct (step_issued C cfg w (AReq req) O V b H1 H0) as [(rq & Ha & Hb & Cs)|[Ha|(j & Ha & _)]];
+      try discriminate Ha. inversion Ha; subst rq.
+    destruct Cs as [(R & _)|[(R & _)|[(R & _)|[(R & _)|[(pv & R & _)|[(R & _)|[(R & _)|(f1 & f2 & f3 & f4 & f5 & f6 & R & G)]]]]]]];
+      try (rewrite R in App; discriminate App).
+    destruct G as (ck & rw & G1 & G2 & G3 & G4). cbn [e_cook e_C] in *.
+    rewrite Ck in G1. inversion G1; subst ck. rewrite Dc in G2. inversion G2; subst rw.
+    rewrite Pp in G3. inversion G3; subst V. rewrite (Ab raw Dc) in G4. discriminate G4.
+Qed.
+
+(* A3: "at most n" survives every step that is not one of the visible exceptions *)
+Lemma rm_at_most_step w a O cookie raw U n :
+  b64url_dec cookie = Some raw -> rm_parse_pid raw = Some U ->
+  ~ rm_exception C cookie U (a, O) ->
+  rm_at_most C cookie U (w_st w) n -> rm_at_most C cookie U (w_st (fst (step C cfg w a O))) n.
+Proof using laws.
+  intros Dc Pp NE H raw' Dc'. rewrite Dc in Dc'. inversion Dc'; subst raw'.
+  apply rm_count_step_raw; [exact laws|exact Pp| |exact (H raw Dc)].
+  intros Hr. apply NE. exists raw. split; [exact Dc|exact Hr].
+Qed.
+
+Lemma rm_at_most_grun cookie raw U n :
+  b64url_dec cookie = Some raw -> rm_parse_pid raw = Some U ->
+  forall l w, Forall (fun ao => ~ rm_exception C cookie U ao) l ->
+    rm_at_most C cookie U (w_st w) n -> rm_at_most C cookie U (w_st (grun (step C cfg) w l)) n.
+Proof using laws.
+  intros Dc Pp. induction l as [|[a O] l IH]; intros w F H; cbn [grun]; [exact H|].
+  inversion F as [|? ? F1 F2]; subst. apply IH; [exact F2|].
+  exact (rm_at_most_step w a O cookie raw U n Dc Pp F1 H).
+Qed.
+
+Lemma rm_at_most_run cookie raw U n l w :
+  b64url_dec cookie = Some raw -> rm_parse_pid raw = Some U ->
+  Forall (fun ao => ~ rm_exception C cookie U ao) l ->
+  rm_at_most C cookie U (w_st w) n -> rm_at_most C cookie U (w_st (fst (run C cfg w l))) n.
+Proof using laws. intros Dc Pp F H. rewrite run_grun. exact (rm_at_most_grun cookie raw U n Dc Pp l w F H). Qed.
+
+(* A4: the step in which the cookie logged its owner in *)
+Lemma rm_consumed_absent w req O cookie raw U :
+  (exists full tf fr l c e, q_route req = RApp full tf fr l c true e) ->
+  alookup k_rm (jar_get (q_browser req) (w_cook w)) = Some cookie ->
+  b64url_dec cookie = Some raw -> rm_parse_pid raw = Some U ->
+  alookup k_uid (jar_get (q_browser req) (w_sess (fst (step C cfg w (AReq req) O)))) = Some U ->
+  alookup k_uid (jar_get (q_browser req) (w_sess w)) <> Some U ->
+  ~ rm_exception C cookie U (AReq req, O) ->
+  rm_at_most C cookie U (w_st w) 1 ->
+  rm_absent C cookie U (w_st (fst (step C cfg w (AReq req) O))).
+Proof using laws.
+  intros (full & tf & fr & l & c & e & R) Ck Dc Pp H1 H0 NE AM.
+  apply rm_absent_iff. intros raw' Dc'. rewrite Dc in Dc'. inversion Dc'; subst raw'.
+  apply (rm_consume_step C laws cfg w req O cookie raw U U 0 full tf fr l c e R Ck Dc Pp); auto.
+  intros Hh. apply NE. exists raw. split; [exact Dc|exact Hh].
+Qed.
+
+(* A5: never again *)
+Lemma cookie_never_again_lemma w0 l1 r1 O1 l2 r2 O2 cookie raw U :
+  b64url_dec cookie = Some raw -> rm_parse_pid raw = Some U ->
+  let w1 := fst (run C cfg w0 l1) in
+  let w1' := fst (run C cfg w0 (l1 ++ [(AReq r1, O1)])) in
+  let w2 := fst (run C cfg w0 (l1 ++ (AReq r1, O1) :: l2)) in
+  let w3 := fst (run C cfg w0 (l1 ++ (AReq r1, O1) :: l2 ++ [(AReq r2, O2)])) in
+  (* r1 presented the cookie on an application route behind remember.Middleware and was logged in by it *)
+  (exists full tf fr l c e, q_route r1 = RApp full tf fr l c true e) ->
+  alookup k_rm (jar_get (q_browser r1) (w_cook w1)) = Some cookie ->
+  alookup k_uid (jar_get (q_browser r1) (w_sess w1')) = Some U ->
+  alookup k_uid (jar_get (q_browser r1) (w_sess w1)) <> Some U ->
+  rm_at_most C cookie U (w_st w1) 1 ->
+  ~ rm_exception C cookie U (AReq r1, O1) ->
+  Forall (fun ao => ~ rm_exception C cookie U ao) l2 ->
+  (* r2, by any browser, presents the same cookie on an application route *)
+  is_app (q_route r2) = true ->
+  alookup k_rm (jar_get (q_browser r2) (w_cook w2)) = Some cookie ->
+  rm_absent C cookie U (w_st w2) /\
+  forall b V, alookup k_uid (jar_get b (w_sess w3)) = Some V -> alookup k_uid (jar_get b (w_sess w2)) = Some V.
+Proof using laws.
+  intros Dc Pp w1 w1' w2 w3 R1 Ck1 H1 H0 AM NE1 Q2 App2 Ck2.
+  assert (E1 : w1' = fst (step C cfg w1 (AReq r1) O1)).
+  { subst w1' w1. rewrite !run_grun. apply grun_snoc. }
+  assert (E2 : w2 = grun (step C cfg) w1' l2).
+  { subst w2 w1'. rewrite !run_grun, grun_mid, grun_snoc. reflexivity. }
+  assert (E3 : w3 = fst (step C cfg w2 (AReq r2) O2)).
+  { subst w3 w2. rewrite !run_grun. rewrite app_comm_cons, app_assoc. apply grun_snoc. }
+  assert (A1 : rm_absent C cookie U (w_st w1')).
+  { rewrite E1. apply (rm_consumed_absent w1 r1 O1 cookie raw U); auto. rewrite <- E1. exact H1. }
+  assert (A2 : rm_absent C cookie U (w_st w2)).
+  { rewrite E2. apply rm_absent_iff. apply (rm_at_most_grun cookie raw U 0 Dc Pp); [exact Q2|].
+    apply rm_absent_iff. exact A1. }
+  split; [exact A2|]. intros b V. rewrite E3.
+  exact (rm_absent_refused w2 r2 O2 cookie raw U App2 Ck2 Dc Pp A2 b V).
+Qed.
+
+(* from the empty world the "at most once" hypothesis is an invariant of exception-free histories *)
+Lemma cookie_never_again_from_empty_lemma l1 r1 O1 l2 r2 O2 cookie raw U :
+  b64url_dec cookie = Some raw -> rm_parse_pid raw = Some U ->
+  let w1 := fst (run C cfg empty_world l1) in
+  let w1' := fst (run C cfg empty_world (l1 ++ [(AReq r1, O1)])) in
+  let w2 := fst (run C cfg empty_world (l1 ++ (AReq r1, O1) :: l2)) in
+  let w3 := fst (run C cfg empty_world (l1 ++ (AReq r1, O1) :: l2 ++ [(AReq r2, O2)])) in
+  Forall (fun ao => ~ rm_exception C cookie U ao) (l1 ++ (AReq r1, O1) :: l2) ->
+  (exists full tf fr l c e, q_route r1 = RApp full tf fr l c true e) ->
+  alookup k_rm (jar_get (q_browser r1) (w_cook w1)) = Some cookie ->
+  alookup k_uid (jar_get (q_browser r1) (w_sess w1')) = Some U ->
+  alookup k_uid (jar_get (q_browser r1) (w_sess w1)) <> Some U ->
+  is_app (q_route r2) = true ->
+  alookup k_rm (jar_get (q_browser r2) (w_cook w2)) = Some cookie ->
+  forall b V, alookup k_uid (jar_get b (w_sess w3)) = Some V -> alookup k_uid (jar_get b (w_sess w2)) = Some V.
+Proof using laws.
+  intros Dc Pp w1 w1' w2 w3 Q R1 Ck1 H1 H0 App2 Ck2.
+  apply Forall_app in Q as [Q1 Q2]. inversion Q2 as [|? ? Q2a Q2b]; subst.
+  apply (cookie_never_again_lemma empty_world l1 r1 O1 l2 r2 O2 cookie raw U Dc Pp); auto.
+  (* any token list of the empty world is empty *)
+  eapply (rm_at_most_run cookie raw U 1 l1 empty_world Dc Pp Q1).
+  intros raw' _. cbn. lia.
+Qed.
+End AH.
